@@ -1841,11 +1841,13 @@ func (r *c07Run) disturbedOutcome(dist []c07Event, cls map[string]bool) string {
 	}
 	cands := dist
 	strict := false
+	strictPanic := false // strict because of a generator / mapper panic (not a context)
 	if len(firsts) == 1 && !outputFirst {
 		e := firsts[0]
 		mapperOrGenPanic := e.kind == "panic" && e.src != "reducer"
 		if mapperOrGenPanic || (e.kind == "ctx" && c.Entry != "foreach") {
 			cands, strict = firsts, true
+			strictPanic = mapperOrGenPanic
 		}
 		cls["first:"+e.kind] = true
 	} else if outputFirst && lt > 0 {
@@ -1874,9 +1876,13 @@ func (r *c07Run) disturbedOutcome(dist []c07Event, cls map[string]bool) string {
 			return ""
 		}
 	}
-	if _, wle, _ := r.writes(r.tret); !strict && wle >= 2 && o.kind == "panic" && (c.Entry == "mr" || c.Entry == "chan") {
+	if _, wle, _ := r.writes(r.tret); (!strict || strictPanic) && wle >= 2 && o.kind == "panic" && (c.Entry == "mr" || c.Entry == "chan") {
 		// "writing twice panics in the caller": both writes were delivered, whatever
-		// else had happened (e.g. a cancel call still waiting for the generator)
+		// else had happened (e.g. a cancel call still waiting for the generator).
+		// Also when a generator / mapper panic came strictly (or causally) first: the
+		// statement demands both panics in the caller and does not rank them (the
+		// re-raised pipeline panic may be superseded by the double-write panic of the
+		// caller's deferred check). A normally returned VALUE stays rejected.
 		if !c07UserPanic(o.pv) {
 			cls["double-write-decided"] = true
 			return ""
